@@ -482,19 +482,34 @@ func (w *nsWorld) checkHostmaps(rt *rapid.T) (tunnels, fresh int) {
 					hm.RUnlock()
 					rt.Fatalf("node %s completed a handshake with an unknown certificate %s", x.name, h.ConnectionState.peerCert.Fingerprint)
 				}
-				if !w.trusted(pi) && w.specs[xi].kind != nsUntrusted {
+				if !w.accepts(xi, pi) {
 					hm.RUnlock()
-					rt.Fatalf("node %s completed a handshake with %s whose certificate is %v", x.name, w.specs[pi].name, w.specs[pi].kind)
-				}
-				if w.specs[xi].kind == nsUntrusted && w.specs[pi].kind != nsUntrusted {
-					hm.RUnlock()
-					rt.Fatalf("node %s (trusting only CA#1) completed a handshake with %s", x.name, w.specs[pi].name)
+					rt.Fatalf("node %s (%v) completed a handshake with %s whose certificate is %v and must not be accepted by it", x.name, w.specs[xi].kind, w.specs[pi].name, w.specs[pi].kind)
 				}
 			}
 		}
 		hm.RUnlock()
 	}
 	return
+}
+
+// accepts is the ground-truth trust rule of the generated world: would node xi's configuration accept
+// identity pi right now? (which CA it trusts, whether it carries the blocklist, validity window)
+func (w *nsWorld) accepts(xi, pi int) bool {
+	x, p := w.specs[xi], w.specs[pi]
+	if x.kind == nsUntrusted {
+		return p.kind == nsUntrusted // trusts only CA#1
+	}
+	if p.kind == nsUntrusted {
+		return false
+	}
+	if p.kind == nsBlocklisted && x.kind != nsBlocklisted {
+		return false // everyone but the blocklisted nodes themselves carries the blocklist
+	}
+	if p.kind == nsExpired {
+		return !time.Now().After(p.notAfter.Add(time.Second))
+	}
+	return true
 }
 
 // ownAddrs lists the addresses node i treats as its own. For the adversarial own-address claimant
@@ -752,4 +767,16 @@ func nsSetHeader(b []byte, typ header.MessageType, sub header.MessageSubType, id
 	b[1] = byte(sub)
 	binary.BigEndian.PutUint32(b[4:8], idx)
 	binary.BigEndian.PutUint64(b[8:16], ctr)
+}
+
+func (w *nsWorld) describe() string {
+	var parts []string
+	for i, sp := range w.specs {
+		st := "up"
+		if w.nodes[i] == nil {
+			st = "not-built"
+		}
+		parts = append(parts, fmt.Sprintf("%s{%v nets=%v v=%v udp=%v claims=%d poses=%d %s}", sp.name, sp.kind, sp.nets, sp.versions, sp.udp, sp.claims, sp.poses, st))
+	}
+	return strings.Join(parts, " ") + fmt.Sprintf(" partitions=%v blocklist=%d fps", w.partitioned, len(w.blockFP))
 }
